@@ -117,7 +117,7 @@ def _relayout(draw, line):
 @st.composite
 def _unit(draw):
     g = _G(draw)
-    pick = draw(st.integers(0, 64))
+    pick = draw(st.integers(0, 67))
     sup = True
     pre = ""
     label = ""
@@ -449,6 +449,31 @@ def _unit(draw):
             body = f"def outer(ds):\n{ind}return ds.{o}(lambda {a}: {a} * 3 + {m} + len({lit}){c})\nq = outer(ds)"
         sup = False
         label = "multi-line-string-literal-in-indented-def-or-lambda"
+    elif pick in (65, 66, 67):
+        # the lambda calls a function of an imported module (module-level `import math`, `from math import floor`, or an import
+        # inside the enclosing function): the most common shape of a real query lambda
+        o = g.op()
+        a = draw(st.sampled_from(ARGS))
+        g.n += 1
+        m = 1000 + g.n * 17
+        k = draw(st.integers(2, 5))
+        c = " > 0" if o == "Where" else ""
+        how = draw(st.sampled_from(["import math", "import math as np", "from math import floor", "local"]))
+        fn = {"import math": "math.floor", "import math as np": "np.floor", "from math import floor": "floor", "local": "math.floor"}[how]
+        lam = f"lambda {a}: {fn}({a} * {k}) + {m}{c}"
+        tail = ""
+        if pick >= 66:
+            o2 = draw(st.sampled_from([x for x in OPS if x != o]) if pick == 66 else st.sampled_from(OPS))
+            a2 = draw(st.sampled_from([x for x in ARGS if x != a]))
+            g.n += 1
+            tail = f".{o2}(lambda {a2}: {fn}({a2} * {k}) - {1000 + g.n * 17}{' > 0' if o2 == 'Where' else ''})"
+            if pick == 67:
+                tail = "\\\n        " + tail  # black-style: the second call on its own line
+        if how == "local":
+            body = f"def outer(ds):\n    import math\n    return ds.{o}({lam}){tail}\nq = outer(ds)"
+        else:
+            body = f"{how}\nq = ds.{o}({lam}){tail}"
+        label = "lambda-calling-a-function-of-an-imported-module"
     elif pick >= 42 and pick <= 58:
         # free-form layout: a chain of 2-3 calls, then line breaks (and comments) at random places where python allows them
         ncalls = draw(st.integers(2, 3))
@@ -539,7 +564,10 @@ def _behaviour(fn):
 def _compile_lambda(lam: ast.Lambda):
     e = ast.Expression(body=lam)
     ast.fix_missing_locations(e)
-    return eval(compile(e, "<recorded>", "eval"), {})
+    import math
+
+    # module names stay symbolic in the recorded lambda (they are not captured values): the ones the layouts import are in scope
+    return eval(compile(e, "<recorded>", "eval"), {"math": math, "np": math, "floor": math.floor})
 
 
 def check(case) -> Result:
